@@ -153,9 +153,9 @@ def execute(scenario, ch):
 
         def mk_snapshot(o):
             tp = TracePointConfig("s%d" % o["sid"], "f.py", 1, {}, [], [])
-            snap = EventSnapshot(tp, k.now_ns, Resource.create({}), [], {})
+            # an unconvertible snapshot: a negative timestamp cannot be encoded as fixed64
+            snap = EventSnapshot(tp, k.now_ns if o["conv"] else -5, Resource.create({}), [], {})
             if not o["conv"]:
-                snap.log_msg = "bad \ud800 text"
                 k.fault("unconvertible")
             return snap
 
